@@ -716,6 +716,14 @@ class Table:
             if x[0] == 'agg' and x[1] in ('Some', 'None'):
                 return TRUE if (x[1] == 'Some') == pos else FALSE
             return one(('V', self.show(x), ('None', 'Some'), frozenset(['Some' if pos else 'None'])))
+        if n.endswith('Option::<T>::unwrap_or') and len(e) == 4 and e[3][0] == 'c' and e[3][1] in (0, 1, True, False) \
+                and e[2][0] == 'call' and e[2][1].split('#')[0].endswith('Option::<T>::map') and len(e[2]) == 4:
+            # opt.map(pred).unwrap_or(c): the predicate on the payload if there is one, else the constant
+            x = e[2][2]
+            some = one(('V', self.show(x), ('None', 'Some'), frozenset(['Some'])))
+            none = one(('V', self.show(x), ('None', 'Some'), frozenset(['None'])))
+            atom = one(('A', self.show(e[2]), truth))
+            return dnf_or(dnf_and(some, atom), none if bool(e[3][1]) == truth else FALSE)
         if (n.endswith('PartialEq>::eq') or n.endswith('PartialEq>::ne')) and len(e) == 4:
             # Option == Some(c) / None with a promoted constant: the variant test and the payload test, as `matches!` would give them
             want = truth == n.endswith('::eq')
